@@ -19,7 +19,7 @@ import AdaptaVerif.Check.Vpsc
 namespace Driver.C01
 open Driver AdaptaVerif.Num AdaptaVerif.Model.Vpsc
 open AdaptaVerif.Check.Vpsc (C checkPost firstBad feasible Verdict sumW)
-open AdaptaVerif.Model.VpscStatic (SSt partitionOf invOkStatic quiescentOk)
+open AdaptaVerif.Model.VpscStatic (SSt partitionOf invOkStatic quiescentOk totalOrder satisfyStep rawSlack)
 
 inductive Op where
   | add (j : Nat)
@@ -182,6 +182,26 @@ def checkCase (c : Case) : CaseResult := Id.run do
           stats := bumpStats stats "smodel.refineSplit" hs.nSplit
           stats := bumpStats stats "smodel.refineRounds" hs.nRounds
           if hs.nSplit ≥ 2 then stats := bumpStats stats "smodel.casesWithSeveralSplits" 1
+          -- the invariant of the VPSC paper's satisfy argument (NOT proved in Lean), evaluated exactly on the
+          -- model after every step of the loop of `Solver::satisfy`: (i) every constraint between two processed
+          -- variables holds, (ii) no previously processed variable has moved right
+          if n ≤ 80 then
+            let mut sp := s0
+            let mut done : Array Bool := Array.replicate n false
+            let mut okFeas := true
+            let mut okLeft := true
+            for v in (totalOrder s0.st).1 do
+              let before := sp.st.positions
+              sp := satisfyStep sp v
+              for u in [0:n] do
+                if done.getD u false && sp.st.pos u > before.getD u 0 then okLeft := false
+              done := done.set! v true
+              for ci in [0:curM] do
+                let cc := sp.st.cons[ci]!
+                if done.getD cc.l false && done.getD cc.r false && rawSlack sp.st ci < 0 then okFeas := false
+            stats := bumpStats stats "smodel.paperInvariantCases" 1
+            if !okFeas then stats := bumpStats stats "smodel.paperInvariant.prefixInfeasible" 1
+            if !okLeft then stats := bumpStats stats "smodel.paperInvariant.processedMovedRight" 1
           if !hs.exact then stats := bumpStats stats "smodel.inexactCases" 1
           let guarded := hs.margin > guardRel * scaleD
           match oc with
